@@ -28,10 +28,10 @@ import (
 )
 
 type scenario struct {
-	Procs    int    `json:"procs"`
-	Pre      string `json:"pre_existing_lock_file"` // none | empty | garbage | dead-pid | foreign-live-then-dies
-	Crash    bool   `json:"one_crash_allowed"`
-	Cancel   bool   `json:"waiter_p102_may_be_cancelled"` // Ctrl-C for one process: its context is cancelled at an arbitrary point
+	Procs  int    `json:"procs"`
+	Pre    string `json:"pre_existing_lock_file"` // none | empty | garbage | dead-pid | foreign-live-then-dies
+	Crash  bool   `json:"one_crash_allowed"`
+	Cancel bool   `json:"waiter_p102_may_be_cancelled"` // Ctrl-C for one process: its context is cancelled at an arbitrary point
 }
 
 func (s scenario) name() string {
